@@ -51,12 +51,9 @@ YmFromString(r) ==
 \* from a plain date (which must itself exist)
 IsPlainDate(dt) == YearOK(dt.y) /\ ValidDate(dt) /\ DateInLimits(dt)
 YmFromDate(dt) == IF IsPlainDate(dt) THEN Ok(YMV(dt.y, dt.m, 1)) ELSE ErrRange
-\* a field record: year, month | monthCode; a day field is not a field of a year-month: it never reaches the hidden part.
-\* (whether an impossible day is refused under reject is left open: either reading is accepted)
-YmFromPartial(p, ovf) ==
-  LET o == FromPartialYm(Restrict(p, YmKeys), ovf)
-      dayBad == Sup(p, "day") /\ o.kind = "ok" /\ (p.day < 1 \/ p.day > DIM(o.val.y, o.val.m))
-  IN IF dayBad /\ ovf = "reject" THEN Either(o, "range") ELSE o
+\* a field record: year, month | monthCode; a day entry is not a field of a year-month (PrepareCalendarFields reads year, month and
+\* monthCode only): it is never read - not even to be refused under reject - and never reaches the hidden part
+YmFromPartial(p, ovf) == FromPartialYm(Restrict(p, YmKeys), ovf)
 \* the low-level constructor: without a reference argument the hidden day is 1; otherwise the explicit reference day (regulated like a date)
 YmNew(y, m, hasRef, rd, ovf) ==
   IF ~YearOK(y) THEN ErrRange
